@@ -45,7 +45,8 @@ Definition cinv (s : state) : Prop :=
   srcc s = gdone (g s) /\
   (xdone (x s) = true -> srcc s = true) /\
   (rlate (r s) = true -> collc s = true) /\
-  collc s = xdr (x s).
+  collc s = xdr (x s) /\
+  wrote s = false.
 
 Lemma clean_beh : forall cf i, clean_cfg cf -> forallb isw (beh cf i) = true.
 Proof.
@@ -87,7 +88,7 @@ Proof.
   intros cf s l s' Hc R I Hl H.
   pose proof (clean_beh cf) as Hbeh. specialize (fun i => Hbeh i Hc).
   destruct Hc as (_ & Hgp & _). unfold cinv in *.
-  destruct I as (I1 & I2 & I3 & I4 & I5 & I6 & I7 & I8 & I9 & I10 & I11 & I12).
+  destruct I as (I1 & I2 & I3 & I4 & I5 & I6 & I7 & I8 & I9 & I10 & I11 & I12 & I13).
   destruct l; try congruence; clear Hl; simpl in H; unf_step H; unfold r_next in H; rewrite ?Hgp in H.
   all: inv_step H.
   all: psend_spec.
@@ -151,7 +152,7 @@ Lemma r_progress : forall cf s,
   exists l, l <> LEnv /\ exists s', step cf s l = Some s'.
 Proof.
   intros cf s I Hc Hr.
-  destruct I as (I1 & I2 & I3 & I4 & I5 & I6 & I7 & I8 & I9 & I10 & I11 & I12).
+  destruct I as (I1 & I2 & I3 & I4 & I5 & I6 & I7 & I8 & I9 & I10 & I11 & I12 & I13).
   destruct (r s) eqn:Er; simpl in *; try discriminate; try congruence.
   - enabled LR. unfold step_r. rewrite Er.
     destruct (coll s); [destruct Hc as [Hc|Hc]; [congruence | rewrite Hc]|]; eauto.
@@ -172,7 +173,7 @@ Lemma no_stuck_state : forall cf s,
 Proof.
   intros cf s Hc R I Hfin.
   pose proof (inv_pool_reach cf s R) as [P1 P2].
-  pose proof I as (I1 & I2 & I3 & I4 & I5 & I6 & I7 & I8 & I9 & I10 & I11 & I12).
+  pose proof I as (I1 & I2 & I3 & I4 & I5 & I6 & I7 & I8 & I9 & I10 & I11 & I12 & I13).
   destruct Hc as (Hw & _).
   destruct (forallb w_exited (ws s)) eqn:Hex.
   - (* every mapper has exited *)
